@@ -57,7 +57,7 @@ def build(ctx, rule):
     for c in walk_own(g.node):
         if isinstance(c, ast.Call):
             callee = repo.resolve_call(g, c)
-            if callee is not None and callee.module.name == "gaftools.conversion" and any(isinstance(r, ast.Return) and const_value(r.value, "?") is False for r in walk_own(callee.node)):
+            if callee is not None and any(isinstance(r, ast.Return) and const_value(r.value, "?") is False for r in walk_own(callee.node)):
                 m.merge = callee
                 m.merge_call = c
     if m.merge is None:
